@@ -17,7 +17,7 @@ from . import common
 from .common import log, ToolError
 
 EXE = "pvh_pipeline"
-RUN_FORMAT = 5      # bump when the way cases are assembled / rendered in this file changes
+RUN_FORMAT = 9      # bump when the way cases are assembled / rendered in this file changes
 THREADS = os.environ.get("PVH_THREADS", "6")
 TLC_WORKERS = int(os.environ.get("PIPELINE_TLC_WORKERS", "4"))
 
@@ -57,7 +57,7 @@ def harness_state():
     base = os.path.join(common.VERIF, "harness", "src")
     for rel in ["bin/pvh_pipeline.rs", "pipeline/drive.rs", "pipeline/gen.rs"]:
         h.update(open(os.path.join(base, rel), "rb").read())
-    for rel in ["PipelineTokens.tla", "MC_Pipeline.tla", "Pipeline.tla"]:
+    for rel in ["PipelineTokens.tla", "MC_Pipeline.tla", "Pipeline.tla", "MC_PipelineWide.tla", "PipelineShapes.tla"]:
         h.update(open(os.path.join(common.SPEC, rel), "rb").read())
     h.update(json.dumps([RUN_FORMAT, TIERS], sort_keys=True).encode())
     return h.hexdigest()[:10]
@@ -144,13 +144,320 @@ def render_set(case, idx):
             "expect": {"t": "set", "ok": exp["ok"], "codes": exp["codes"], "mod": exp["mod"]}}
 
 
+def render_wide(case, idx):
+    """A module set of 4-6 modules emitted by MC_PipelineWide: every module has one public function (called by its importers, so that
+    rings are mutual recursion across modules and functions are reachable through imports only) and a private one of the SAME
+    name in every module; `main` sits in the module the cell names (or nowhere)."""
+    n = len(case["mods"])
+    names = ["m%d.pn" % (m + 1) for m in range(n)]
+    imports = [tuple(p) for p in case["imports"]]
+    mods = []
+    for m, decls in enumerate(case["mods"]):
+        k = m + 1
+        s = ""
+        if k in case["badimp"]:
+            s += 'import "nosuch.pn";\n'
+        targets = [j for (i, j) in imports if i == k]
+        for j in targets:
+            s += 'import "%s";\n' % names[j - 1]
+        callees = [j for j in targets if j != k and case["mods"][j - 1][0]["fault"] == "none"]
+        d = decls[0]
+        head = "pub fn m%d_f1" % k
+        if d["fault"] == "lex":
+            s += head + "(@) -> i32\n{\n\treturn: 1\n}\n"
+        elif d["fault"] == "parse":
+            s += head + "(x: i32 -> i32\n{\n\treturn: 1\n}\n"
+        else:
+            body = " + ".join(["shared(x)"] + ["m%d_f1(x)" % j for j in callees])
+            s += head + "(x: i32) -> i32\n{\n\treturn: %s\n}\n" % body
+        # (every module uses a builtin: the declarations of write / snprintf are per-module state of the generator)
+        s += "fn shared(x: i32) -> i32\n{\n\tprint!(\"m%d \", x, \"\\n\");\n\treturn: x + %d\n}\n" % (k, k)
+        if case["meta"]["main"] == k:
+            s += "fn main() -> i32\n{\n\tvar r: i32 = m%d_f1(1);\n%s\treturn: r\n}\n" % (
+                k, "".join("\tr = r + m%d_f1(%d);\n" % (j, j) for j in callees))
+        mods.append({"name": names[m], "src": s})
+    exp = case["expect"]
+    meta = case["meta"]
+    nimp = max([sum(1 for (i, j) in imports if i == k + 1) for k in range(n)] + [0])
+    return {"id": "wset%d" % idx, "kind": "wset", "wasm": False, "mods": mods,
+            "origin": "n=%d topo=%s faults=%s main=%d max-imports=%d" % (n, meta["topo"], meta["faults"], meta["main"], nimp),
+            "expect": {"t": "set", "ok": exp["ok"], "codes": exp["codes"], "mod": exp["mod"]}}
+
+
+_SIZE_BASE = "fn main() -> i32\n{\n\tvar x: i32 = 0;\n\treturn: x\n}\n"
+
+
+def _fill_comment(text, size, nl="\n"):
+    """append a comment line so that the text has exactly `size` bytes"""
+    k = size - len(text.encode()) - 3 - len(nl)
+    if k < 0:
+        raise ToolError("size cell of %d bytes is smaller than its base text" % size)
+    return text + "// " + "x" * k + nl
+
+
+def _render_size(cell):
+    pad, size = cell["pad"], cell["size"]
+    if pad == "tiny":
+        return ["", ";", "{}", "fn "][size]
+    main_open, main_close = "fn main() -> i32\n{\n\tvar x: i32 = 0;\n", "\treturn: x\n}\n"
+    if pad == "comment":
+        return _fill_comment(_SIZE_BASE, size)
+    if pad == "mbcomment":
+        k = size - len(_SIZE_BASE) - 4
+        return _SIZE_BASE + "// " + "é" * (k // 2) + "x" * (k % 2) + "\n"
+    if pad == "spaces":
+        return _SIZE_BASE + " " * (size - len(_SIZE_BASE) - 1) + "\n"
+    if pad == "newlines":
+        return _SIZE_BASE + "\n" * (size - len(_SIZE_BASE))
+    if pad == "crlf":
+        return _fill_comment(_SIZE_BASE.replace("\n", "\r\n"), size, "\r\n")
+    if pad == "decls":
+        # (functions of ~200 bytes: 64 KiB are ~330 declarations -- thousands of declarations make the symbol rule quadratic in TLC)
+        body = "\tvar y: i32 = x;\n" + "\ty = y + 1;\n" * 14 + "\treturn: y\n"
+        unit = len("fn f00000(x: i32) -> i32\n{\n" + body + "}\n")
+        n = max(0, (size - len(_SIZE_BASE) - 5) // unit)
+        return _fill_comment(_SIZE_BASE + "".join("fn f%05d(x: i32) -> i32\n{\n%s}\n" % (i, body) for i in range(n)), size)
+    if pad == "stmts":
+        unit = len("\tx = x + 1;\n")
+        n = max(0, (size - len(_SIZE_BASE) - 5) // unit)
+        return _fill_comment(main_open + "\tx = x + 1;\n" * n + main_close, size)
+    if pad == "longline":
+        k = size - len(main_open) - len(main_close) - len("\tx = x + 1;\n")
+        return main_open + "\tx = x + 1;" + " " * k + "\n" + main_close
+    if pad == "ident":
+        k = size - len(main_open) - len(main_close) - len("\tvar : i32 = 1;\n")
+        return main_open + "\tvar " + "a" * k + ": i32 = 1;\n" + main_close
+    if pad == "string":
+        k = size - len(main_open) - len(main_close) - len('\tvar s = "";\n')
+        return main_open + '\tvar s = "' + "a" * k + '";\n' + main_close
+    if pad == "digits":
+        k = size - len(main_open) - len(main_close) - len("\tvar n: u128 = 1;\n")
+        return main_open + "\tvar n: u128 = " + "0" * k + "1;\n" + main_close
+    raise ToolError("unknown pad %s" % pad)
+
+
+def _render_depth(cell):
+    c, d = cell["construct"], cell["depth"]
+    A = "&" * d
+    IDX = "[0]" * d
+    pre = ("struct S\n{\n\ts: &S,\n\tv: i32,\n}\nstruct T2\n{\n\tm: &i32,\n}\nfn f(p: &i32)\n{\n}\nfn f2(q: i32)\n{\n}\n")
+    body = None
+    top = ""
+    if c == "addr-init":
+        body = "\tvar y = %sx;\n" % A
+    elif c == "addr-arg":
+        body = "\tf(%sx);\n" % A
+    elif c == "addr-target":
+        body = "\tvar p: &i32 = &x;\n\t%sp = &x;\n" % A
+    elif c == "addr-cond":
+        body = "\tif %sx == 1\n\t{\n\t\tx = 2;\n\t}\n" % A
+    elif c == "addr-ret":
+        top = "fn g(x: i32) -> &i32\n{\n\treturn: %sx\n}\n" % A
+        body = ""
+    elif c == "addr-len":
+        body = "\tvar n = |%sa|;\n" % A
+    elif c == "addr-member-init":
+        body = "\tvar t = T2 { m: %sx };\n" % A
+    elif c == "addr-element":
+        body = "\tvar arr = [%sx, %sx];\n" % (A, A)
+    elif c == "idx-read":
+        body = "\tvar y = a%s;\n" % IDX
+    elif c == "idx-write":
+        body = "\ta%s = 1;\n" % IDX
+    elif c == "idx-len":
+        body = "\tvar n = |a%s|;\n" % IDX
+    elif c == "idx-arg":
+        body = "\tf2(a%s);\n" % IDX
+    elif c == "mem-read":
+        body = "\tvar y = p%s.v;\n" % (".s" * (d - 1))
+        top = None
+    elif c == "mem-write":
+        body = "\tp%s.v = 1;\n" % (".s" * (d - 1))
+        top = None
+    elif c == "mem-arg":
+        body = "\tf2(p%s.v);\n" % (".s" * (d - 1))
+        top = None
+    elif c == "mixed-read":
+        body = "\tvar y = p%s;\n" % "".join(".s" if i % 2 == 0 else "[0]" for i in range(d))
+        top = None
+    elif c == "mixed-write":
+        body = "\tp%s = 1;\n" % "".join("[0]" if i % 2 == 0 else ".s" for i in range(d))
+        top = None
+    elif c == "addr-and-idx":
+        body = "\tvar y = %sa%s;\n" % (A, IDX)
+    elif c == "type-var":
+        body = "\tvar p: %si32 = &x;\n" % A
+    elif c == "type-param":
+        top = "fn g(p: %si32)\n{\n}\n" % A
+        body = ""
+    elif c == "type-ret":
+        top = "fn g() -> %si32;\n" % A
+        body = ""
+    elif c == "type-member":
+        top = "struct U\n{\n\tm: %si32,\n}\n" % A
+        body = ""
+    elif c == "type-const":
+        top = "const K: %si32 = 0;\n" % A
+        body = ""
+    elif c == "type-sizeof":
+        body = "\tvar n = |:%si32|;\n" % A
+    elif c == "type-cast":
+        body = "\tvar q = x as %si32;\n" % A
+    elif c == "type-head":
+        top = "fn h(p: %si32);\n" % A
+        body = ""
+    elif c == "type-slice":
+        top = "fn g(p: %si32)\n{\n}\n" % ("[]" * d)
+        body = ""
+    else:
+        raise ToolError("unknown depth construct %s" % c)
+    if top is None:
+        # member chains: a function with a pointer parameter
+        return pre + "fn walk(p: &S)\n{\n" + body + "}\n"
+    return pre + top + "fn main()\n{\n\tvar x: i32 = 1;\n\tvar a: [4]i32 = [1, 2, 3, 4];\n" + body + "}\n"
+
+
+def _render_builtin(cell):
+    b, nargs, arg, ctx, form = cell["b"], cell["nargs"], cell["arg"], cell["ctx"], cell["mods"]
+    name = b + "!"
+    first = {"int": "v", "str": '"t"', "bool": "true"}[arg]
+    others = {"int": ["7i32", "v + 1"], "str": ['"u\\n"', '"w"'], "bool": ["false", "true"]}[arg]
+    args = ([first] + others)[:nargs]
+    if b == "include_bytes" and nargs >= 1:
+        args[0] = '"main.pn"'
+    call = "%s(%s)" % (name, ", ".join(args))
+
+    def user(prefix, public):
+        head = "%sfn %s_use(v0: i32) -> i32\n{\n\tvar v: i32 = v0;\n" % ("pub " if public else "", prefix)
+        if ctx == "stmt":
+            return head + "\t%s;\n\treturn: v\n}\n" % call
+        if ctx == "init":
+            return head + "\tvar r = %s;\n\treturn: v\n}\n" % call
+        if ctx == "arg":
+            return head + "\tvar r: i32 = helper(%s);\n\treturn: r\n}\n" % call
+        if ctx == "ret":
+            return head + "\treturn: %s\n}\n" % call
+        if ctx == "cond":
+            return head + "\tif %s == 1\n\t{\n\t\tv = 2;\n\t}\n\treturn: v\n}\n" % call
+        return head + "\tvar r: i32 = 1 + %s;\n\treturn: r\n}\n" % call
+
+    helper = "fn helper(x: i32) -> i32\n{\n\treturn: x\n}\n"
+    nlibs = {"one": 0, "one-wasm": 0, "two": 1, "two-wasm": 1, "three": 2}[form]
+    libs = ["lib.pn", "lib2.pn"][:nlibs]
+    main = "".join('import "%s";\n' % l for l in libs) + helper + user("main", False)
+    calls = "".join("\tr = r + %s_use(%d);\n" % (l.split(".")[0], i + 2) for i, l in enumerate(libs))
+    main += "fn main() -> i32\n{\n\tvar r: i32 = main_use(1);\n%s\treturn: r\n}\n" % calls
+    mods = [{"name": "main.pn", "src": main}]
+    for l in libs:
+        mods.append({"name": l, "src": helper + user(l.split(".")[0], True)})
+    return mods, form.endswith("wasm")
+
+
+def _render_sym(cell):
+    flags, kind, place = cell["flags"], cell["kind"], cell["place"]
+    f = flags + " " if flags else ""
+    public = "pub" in flags
+    leaf = "%sfn target(x: i32) -> i32\n{\n\treturn: x + 1\n}\n" % f
+    head = "%sfn target(x: i32) -> i32;\n" % f
+    if kind in ("leaf", "unused", "viaimport"):
+        t = leaf
+    elif kind == "selfrec":
+        t = "%sfn target(x: i32) -> i32\n{\n\tvar r: i32 = x;\n\tif x > 0\n\t{\n\t\tr = target(x - 1);\n\t}\n\treturn: r\n}\n" % f
+    elif kind == "mutual":
+        t = ("%sfn target(x: i32) -> i32\n{\n\tvar r: i32 = x;\n\tif x > 0\n\t{\n\t\tr = other(x - 1);\n\t}\n\treturn: r\n}\n" % f +
+             "fn other(x: i32) -> i32\n{\n\tvar r: i32 = x;\n\tif x > 0\n\t{\n\t\tr = target(x - 1);\n\t}\n\treturn: r\n}\n")
+    elif kind == "headdef":
+        t = head + "fn between(x: i32) -> i32\n{\n\treturn: target(x)\n}\n" + leaf
+    elif kind == "defhead":
+        t = leaf + head
+    else:
+        t = head
+    wrapper = "pub fn wrapper(x: i32) -> i32\n{\n\treturn: %s\n}\n" % ("x" if kind == "unused" else "target(x)")
+    filler = "pub fn %s_f(x: i32) -> i32\n{\n\treturn: x * 2\n}\nfn shared(x: i32) -> i32\n{\n\treturn: x\n}\n"
+    if place == "m1":
+        call = "" if kind == "unused" else "\tr = r + target(r);\n"
+        a = 'import "b.pn";\n' + t + "fn shared(x: i32) -> i32\n{\n\treturn: x\n}\n" + \
+            "fn main() -> i32\n{\n\tvar r: i32 = b_f(1);\n%s\treturn: r\n}\n" % call
+        return [{"name": "a.pn", "src": a}, {"name": "b.pn", "src": filler % "b"}]
+    direct = "\tr = r + target(r);\n" if (public and kind != "unused") else ""
+    main = "fn main() -> i32\n{\n\tvar r: i32 = wrapper(1);\n%s\treturn: r\n}\n" % direct
+    if place == "m2":
+        return [{"name": "a.pn", "src": 'import "b.pn";\n' + main}, {"name": "b.pn", "src": t + wrapper}]
+    if place == "main2":
+        return [{"name": "b.pn", "src": t + wrapper}, {"name": "a.pn", "src": 'import "b.pn";\n' + main}]
+    b = 'import "c.pn";\n' + "pub fn b_f(x: i32) -> i32\n{\n\treturn: wrapper(x)\n}\nfn shared(x: i32) -> i32\n{\n\treturn: x\n}\n"
+    a = 'import "b.pn";\nimport "c.pn";\n' + main.replace("wrapper(1)", "wrapper(1) + b_f(2)")
+    return [{"name": "a.pn", "src": a}, {"name": "b.pn", "src": b}, {"name": "c.pn", "src": t + wrapper + "fn shared(x: i32) -> i32\n{\n\treturn: x\n}\n"}]
+
+
+def _render_names(cell):
+    kind, link = cell["kind"], cell["link"]
+    decl = {
+        "pubfn": ("pub fn thing(x: i32) -> i32\n{\n\treturn: x + %d\n}\n",) * 2,
+        "privfn": ("fn thing(x: i32) -> i32\n{\n\treturn: x + %d\n}\n",) * 2,
+        "externfn": ("extern fn thing(x: i32) -> i32\n{\n\treturn: x + %d\n}\n",) * 2,
+        "main": ("fn main() -> i32\n{\n\treturn: %d\n}\n",) * 2,
+        "pubconst": ("pub const THING: i32 = %d;\n",) * 2,
+        "privconst": ("const THING: i32 = %d;\n",) * 2,
+        "pubstruct": ("pub struct Thing\n{\n\tx: i32,\n\ty%d: i32,\n}\n",) * 2,
+        "privstruct": ("struct Thing\n{\n\tx: i32,\n\ty%d: i32,\n}\n",) * 2,
+        "pubfn-vs-privfn": ("pub fn thing(x: i32) -> i32\n{\n\treturn: x + %d\n}\n", "fn thing(x: i32) -> i32\n{\n\treturn: x + %d\n}\n"),
+        "pubfn-vs-const": ("pub fn thing(x: i32) -> i32\n{\n\treturn: x + %d\n}\n", "pub const thing: i32 = %d;\n"),
+    }[kind]
+    use = {"pubconst": "THING", "privconst": "THING", "pubstruct": "1", "privstruct": "1", "main": "1", "pubfn-vs-const": "1"}.get(kind, "thing(1)")
+    a = decl[0] % 1 + "pub fn a_use() -> i32\n{\n\treturn: %s\n}\n" % use
+    b = decl[1] % 2 + "pub fn b_use() -> i32\n{\n\treturn: %s\n}\n" % (use if kind != "pubfn-vs-const" else "thing")
+    if link == "a-imports-b":
+        a = 'import "b.pn";\n' + a
+    elif link == "mutual":
+        a = 'import "b.pn";\n' + a
+        b = 'import "a.pn";\n' + b
+    mods = [{"name": "a.pn", "src": a}, {"name": "b.pn", "src": b}]
+    if link == "third-imports-both":
+        mods.append({"name": "c.pn", "src": 'import "a.pn";\nimport "b.pn";\npub fn c_use() -> i32\n{\n\treturn: a_use() + b_use()\n}\n'})
+    return mods
+
+
+def render_shape(case, idx):
+    """A cell of spec/PipelineShapes.tla -> source text"""
+    cell, exp = case["cell"], case["expect"]
+    fam = cell["fam"]
+    wasm = False
+    if fam == "builtin":
+        mods, wasm = _render_builtin(cell)
+        origin = "builtin %s!/%d %s/%s/%s" % (cell["b"], cell["nargs"], cell["arg"], cell["ctx"], cell["mods"])
+    elif fam == "depth":
+        mods = [{"name": "depth.pn", "src": _render_depth(cell)}]
+        origin = "depth %s/%d" % (cell["construct"], cell["depth"])
+    elif fam == "size":
+        src = _render_size(cell)
+        if len(src.encode()) != cell["size"]:
+            raise ToolError("size cell %s rendered as %d bytes" % (json.dumps(cell), len(src.encode())))
+        mods = [{"name": "size.pn", "src": src}]
+        origin = "size %s/%d" % (cell["pad"], cell["size"])
+    elif fam == "names":
+        mods = _render_names(cell)
+        origin = "names %s/%s" % (cell["kind"], cell["link"])
+    else:
+        mods = _render_sym(cell)
+        origin = "sym %s/%s/%s" % (cell["flags"].replace(" ", "+") or "private", cell["kind"], cell["place"])
+    out = {"id": "shape%d" % idx, "kind": "shape:" + fam, "wasm": wasm, "mods": mods, "origin": origin}
+    if exp["t"] != "free":
+        out["expect"] = {"t": exp["t"]}
+        if exp["t"] == "valid":
+            # the functions the renderer wrote (first, last and main of the texts it filled with declarations)
+            fns = sorted(set(re.findall(r"^(?:pub |extern )*fn (\w+)\([^;\n]*$", "\n".join(m["src"] for m in mods), re.M)))
+            out["expect"]["fns"] = fns if len(fns) <= 8 else fns[:3] + fns[-3:] + ["main"]
+    return out
+
+
 TIERS = {
-    # n_mut, n_soup, n_nest, n_fault, n_multi, n_line, n_struct; token cfgs; module-set cfg; statement-placement cfg
-    "quick": dict(xgen=[150, 120, 2], gen=[9000, 1500, 480, 1200, 1500, 4000, 600], tok=["PipelineTokens_quick.cfg"], mc="MC_Pipeline_quick.cfg",
-                  place="MC_Placement_quick.cfg"),
-    "thorough": dict(xgen=[2500, 1200, 3], gen=[120000, 20000, 1440, 12000, 15000, 50000, 6000],
+    # n_mut, n_soup, n_nest, n_fault, n_multi, n_line, n_struct, audit families on/off; token cfgs; module-set cfg; statement-placement cfg
+    "quick": dict(xgen=[150, 120, 2], gen=[9000, 1500, 480, 1200, 1500, 4000, 600, 1], tok=["PipelineTokens_quick.cfg"], mc="MC_Pipeline_quick.cfg",
+                  place="MC_Placement_quick.cfg", wide="MC_PipelineWide_quick.cfg", shapes="PipelineShapes_quick.cfg"),
+    "thorough": dict(xgen=[2500, 1200, 3], gen=[120000, 20000, 1440, 12000, 15000, 50000, 6000, 1],
                      tok=["PipelineTokens_quick.cfg", "PipelineTokens_thorough3.cfg"], mc="MC_Pipeline_thorough.cfg",
-                     place="MC_Placement_quick.cfg"),
+                     place="MC_Placement_quick.cfg", wide="MC_PipelineWide_thorough.cfg", shapes="PipelineShapes_thorough.cfg"),
 }
 
 
@@ -242,6 +549,20 @@ def _compute_run(tier, seed, d):
                             "ok": r.ok, "violated": r.violated}
     for i, c in enumerate(r.cases):
         cases.append(render_set(c, i))
+    # (a3) module sets of 4-6 modules (import topologies x fault places x position of main) and structured cells
+    # (builtins x contexts x modules, nesting at the documented bound, exact sizes, symbol-table shapes), from TLC
+    r = _tlc("MC_PipelineWide", cfg["wide"], "wide", 900)
+    if not r.ok or not r.cases:
+        raise ToolError("MC_PipelineWide: %s" % (r.violated or "no cases"))
+    tlc_stats[cfg["wide"]] = {"generated": r.generated, "distinct": r.distinct, "cases": len(r.cases)}
+    for i, c in enumerate(sorted(r.cases, key=lambda c: json.dumps(c, sort_keys=True))):
+        cases.append(render_wide(c, i))
+    r = _tlc("PipelineShapes", cfg["shapes"], "shapes", 900)
+    if not r.ok or not r.cases:
+        raise ToolError("PipelineShapes: %s" % (r.violated or "no cases"))
+    tlc_stats[cfg["shapes"]] = {"generated": r.generated, "distinct": r.distinct, "cases": len(r.cases)}
+    for i, c in enumerate(sorted(r.cases, key=lambda c: json.dumps(c["cell"], sort_keys=True))):
+        cases.append(render_shape(c, i))
     # (a'') every statement placement up to the bound (spec/Placement.tla of C06, read-only): compiled through the
     # WHOLE pipeline here, so that whatever the analyzers wrongly accept reaches the generator
     r = _tlc("MC_Placement", cfg["place"], "place", 1500)
